@@ -140,8 +140,21 @@ def expected_streams(tree):
 OPTIONAL_PAREN_PARENTS = ('Parenthesized', 'Params', 'ModuleImport', 'ImportItems')
 
 
-def strip_layout_keep_parens(s):
+def strip_layout_keep_parens(s, mask=False):
+    """layout characters dropped, parentheses kept.  mask=True: the text is a token other than a parenthesis (a string, a word, a raw text ...):
+    parentheses inside it are characters, not delimiters, and are replaced by placeholders so that they never pair with real ones"""
+    if mask:
+        s = s.replace('(', '\x01').replace(')', '\x02')
     return ''.join(ch for ch in s if ch in '()' or ch not in LAYOUT_CHARS)
+
+
+def node_paren_text(nd, kt):
+    """paren stream of a model node (an opaque atom stands for a whole subtree)"""
+    if nd.children:
+        return ''.join(node_paren_text(c, kt) for c in nd.children)
+    name = kt.names[nd.kind] if not is_sym(nd.kind) else '?'
+    t = nd.text.concrete() if nd.text is not None and nd.text.is_concrete() else ''
+    return strip_layout_keep_parens(t, mask=name not in ('LeftParen', 'RightParen'))
 
 
 def expected_paren_stream(tree, parent=None, out=None):
@@ -159,6 +172,8 @@ def expected_paren_stream(tree, parent=None, out=None):
         return None
     elif kind in ('LeftParen', 'RightParen') and parent in OPTIONAL_PAREN_PARENTS:
         pass
+    elif x not in ('(', ')') and ('(' in x or ')' in x):
+        return None         # a token that holds parentheses as characters (a string, raw text, a word): not judged
     else:
         out.append(strip_layout_keep_parens(x))
     return ''.join(out) if top else out
@@ -477,7 +492,9 @@ def confirm(S, info):
                 from . import deep as _deep
                 t_doc = _deep.tree_of(S, doc)
                 e_par = expected_paren_stream(t_doc) if t_doc is not None else None
-                if e_par is not None and not redundant_colons(t_doc) and not derivable_by_deleting_pairs(e_par, strip_layout_keep_parens(out)):
+                t_o = _deep.tree_of(S, out)
+                g_par = ''.join(strip_layout_keep_parens(t__) for k__, t__ in leaf_list(t_o) if k__ not in ('LineComment', 'BlockComment')) if t_o is not None else None
+                if e_par is not None and g_par is not None and not redundant_colons(t_doc) and not derivable_by_deleting_pairs(e_par, g_par):
                     return dict(api='Typstyle::format_content', source=doc, width=w, output=out,
                                 what='a parenthesis that belongs to a construct moved across tokens: %s -> %s' % (show(doc), show(out)))
             if doc.lstrip().startswith('$') and '#' not in doc and out.count(';') != doc.count(';'):
